@@ -70,6 +70,9 @@ func c11Inputs(c *mon.Ctx, idx int) (s string, pathological bool, kind string) {
 			// many distinct recorded errors before the budget runs out: invalid
 			// bytes at different offsets of one literal / a chain of undecodable literals
 			k := 8 + r.Intn(12)
+			if (idx/30)%7 == 3 {
+				k = 2000 + r.Intn(1500) // enough error text for any size cap
+			}
 			var sb strings.Builder
 			if r.Intn(2) == 0 {
 				sb.WriteString(`a == "`)
